@@ -3,6 +3,8 @@ package main
 import (
 	"fmt"
 	"math/rand"
+	"os"
+	"runtime"
 	"time"
 )
 
@@ -109,6 +111,7 @@ func runFoGeneric(b *Batch, prop string) {
 			continue
 		}
 		foJudge(b, i, prop, c)
+		collectGarbage(i)
 	}
 }
 
@@ -123,6 +126,7 @@ func foJudge(b *Batch, idx int, prop string, c *foCase) *foExec {
 	b.R.Count("api."+c.Cfg.API, 1)
 	if x.outcome == "inconclusive" {
 		b.R.Inconcl(fmt.Sprintf("%s case %d: executor watchdog", prop, idx))
+		x.run.release()
 		return x
 	}
 	var nBuilds, nBG, nGets, nWait, nInj, nStale, nErr, nMut, nCancel int64
@@ -209,6 +213,7 @@ func foJudge(b *Batch, idx int, prop string, c *foCase) *foExec {
 		w := x.witness(c)
 		b.R.Sample(w)
 	}
+	x.run.release()
 	return x
 }
 
@@ -221,4 +226,15 @@ func containsAny(s string, subs ...string) bool {
 		}
 	}
 	return false
+}
+
+// collectGarbage lets finalizers stop the janitor goroutines of finished cases; otherwise goroutine dumps of the steered
+// executor get slower and slower in long batches.
+func collectGarbage(i int) {
+	if i%100 == 99 {
+		runtime.GC()
+	}
+	if i%500 == 499 && os.Getenv("VH_PROGRESS") == "1" {
+		fmt.Fprintf(os.Stderr, "progress: case %d goroutines=%d t=%s\n", i, runtime.NumGoroutine(), time.Now().Format("15:04:05.000"))
+	}
 }
